@@ -40,7 +40,8 @@ def run(ctx):
                 "orders; (H) one Payload object handed to two operations (reduce over 2 / 4 inputs, batched reduce with uneven "
                 "batches, map) and to both builds; (U) unions (Cascade.from_actions, +, +=) of a generator source / a plain source with "
                 "the results of two programs whose nodes share a payload and read different outputs of one node; (V) one action containing "
-                "the same sub-expression twice (map+add of itself, batched normalisation) made into a Cascade alone / united with its source; (S) pairs of "
+                "the same sub-expression twice (map+add of itself, batched normalisation) made into a Cascade alone / united with its source; (W) one from_source "
+                "array whose elements share the payload (1-d, 2-d, equal partials) followed by per-node operations and reductions; (S) pairs of "
                 "sources from those callables created by one or two from_source calls; (O) receiver in {A, A.map, D} x one or "
                 "two operations from {add, subtract, multiply, divide, power, join (match / no match / along x), broadcast} with "
                 "operands whose coordinates differ, and {map, add scalar, sum, sum keep_dim, mean, select, isel, stack, "
